@@ -331,6 +331,7 @@ func genWork(r *Rand, i int, tier string) []string {
 	// once a malformed call was generated the plans may share hashes between rounds: every later
 	// submission of the case is labelled submitx (outside the property's preconditions)
 	submit := "submit"
+	allowMalformed := r.Chance(1, 5)
 	nops := r.Range(4, 40)
 	for j := 0; j < nops; j++ {
 		node := r.Range(1, nNodes)
@@ -400,6 +401,10 @@ func genWork(r *Rand, i int, tier string) []string {
 				lines = append(lines, c26Line(submit, node, ch.cur, credit, p[1:ch.sent]))
 			}
 		case 16: // malformed submissions, outside the property's preconditions
+			if !allowMalformed {
+				reads()
+				break
+			}
 			p := append([]c26PlanSnap{}, planRound(node, ch, ch.cur)...)
 			switch r.Intn(4) {
 			case 0: // duplicate snapshot in one call
